@@ -88,6 +88,9 @@ type viCfg struct {
 	Fk   string `json:"fk"`
 	Ck   int    `json:"ck"`
 	Cx   int    `json:"cx"`
+	Rsrc string `json:"rsrc"`
+	Rk   int    `json:"rk"`
+	Rknd string `json:"rkind"`
 }
 
 type viAct struct {
@@ -793,6 +796,91 @@ func (d *viDB) Update(f func(tx walletdb.ReadWriteTx) error, reset func()) error
 }
 
 // ---------------------------------------------------------------------------
+// An import source that becomes unreadable in the WRITE pass. The importer
+// reads each source twice: once through the iterator of the validation pass,
+// then through the iterators appendNewHeaders creates. The fault is armed when
+// the source hands out its second iterator and makes every ReadAt at or
+// beyond the header of height cfg.rk fail - with io.EOF (a short read: the
+// tail of the file is gone) or with another I/O error. It is injected at the
+// ImportHeadersFile interface the file source reads through.
+
+var errViSourceRead = errors.New("verif: injected import source read error")
+
+type viFlakyFile struct {
+	ImportHeadersFile
+	armed bool
+	from  int64
+	err   error
+}
+
+func (f *viFlakyFile) ReadAt(p []byte, off int64) (int, error) {
+	if f.armed && off >= f.from {
+		return 0, f.err
+	}
+	return f.ImportHeadersFile.ReadAt(p, off)
+}
+
+type viFlakySource struct {
+	*fileHeaderImportSource
+	flaky     *viFlakyFile
+	iterators int
+	index     int64
+	hdrSize   int64
+	err       error
+}
+
+func (s *viFlakySource) Open() error {
+	if err := s.fileHeaderImportSource.Open(); err != nil {
+		return err
+	}
+	s.flaky = &viFlakyFile{
+		ImportHeadersFile: s.fileHeaderImportSource.file,
+		from:              int64(ImportMetadataSize) + s.index*s.hdrSize,
+		err:               s.err,
+	}
+	s.fileHeaderImportSource.file = s.flaky
+	return nil
+}
+
+func (s *viFlakySource) Iterator(start, end, batchSize uint32) HeaderIterator {
+	s.iterators++
+	if s.iterators == 2 && s.flaky != nil {
+		s.flaky.armed = true
+	}
+	return s.fileHeaderImportSource.Iterator(start, end, batchSize)
+}
+
+func viMakeFlaky(imp *headersImport, c viCfg) error {
+	rerr := io.EOF
+	if c.Rknd == "io" {
+		rerr = errViSourceRead
+	}
+	switch c.Rsrc {
+	case "B":
+		inner, ok := imp.blockHeadersImportSource.(*fileHeaderImportSource)
+		if !ok {
+			return errors.New("block header source is not a file source")
+		}
+		imp.blockHeadersImportSource = &viFlakySource{
+			fileHeaderImportSource: inner, index: int64(c.Rk - c.S),
+			hdrSize: headerfs.BlockHeaderSize, err: rerr,
+		}
+	case "F":
+		inner, ok := imp.filterHeadersImportSource.(*fileHeaderImportSource)
+		if !ok {
+			return errors.New("filter header source is not a file source")
+		}
+		imp.filterHeadersImportSource = &viFlakySource{
+			fileHeaderImportSource: inner, index: int64(c.Rk - c.S),
+			hdrSize: headerfs.RegularFilterHeaderSize, err: rerr,
+		}
+	default:
+		return errors.New("unknown source " + c.Rsrc)
+	}
+	return nil
+}
+
+// ---------------------------------------------------------------------------
 // Store wrappers: observe every mutating store call of the importer, inject.
 
 type viCall struct {
@@ -1001,6 +1089,11 @@ func (e *viEnv) runImport(run int, plan map[int]viInj, out *[]viStepOut) string 
 		if err != nil {
 			res, impErr = "err", err
 			return
+		}
+		if run == 1 && e.cfg.Rsrc != "none" && e.cfg.Rsrc != "" {
+			if err := viMakeFlaky(imp, e.cfg); err != nil {
+				panic("verif: " + err.Error())
+			}
 		}
 		ctx, cancel := context.WithCancel(context.Background())
 		defer cancel()
